@@ -17,7 +17,7 @@ PLAN = dict(
                 "cross-checked by an independent parser so that URL identity does not rest on net/url being idempotent."),
     level_note=NOTE_BASE,
     runs=[
-        dict(name="rt", run="^(TestPropRoundTrip|TestCorpus)$", checks=(1500, 40000), shards=(2, 12), timeout=(300, 1800)),
+        dict(name="rt", run="^(TestPropRoundTrip|TestCorpus)$", checks=(1500, 200000), shards=(2, 16), timeout=(300, 3600)),
     ],
     require=[("roundtrip", "variants"), ("roundtrip", "variants-multikey"), ("roundtrip", "write-must-fail"), ("roundtrip", "signatures"),
              ("roundtrip", "fixpoint-checked"), ("roundtrip", "body-head-w4"), ("roundtrip", "b1"), ("roundtrip", "b2")],
